@@ -22,7 +22,7 @@ def families(tier, seed):
     out = []
     out += list(cgen.s_corpus())
     out += list(cgen.s_templates(depth2=(tier != "quick")))
-    out += list(cgen.aggregates())
+    out += list(cgen.aggregates(extra=False))
     out += list(cgen.floats())
     out += list(cgen.e2())
     if tier == "quick":
@@ -35,11 +35,13 @@ def families(tier, seed):
         out += list(cgen.e3(types=cgen.SIX))
         root = ["+", "-", "*", "/", "%", "&", "|", "^", "<<", ">>", "<", "=="][seed % 12]
         out += list(cgen.e4([root], types=["signed char", "unsigned", "long"]))
+        out += list(cgen.extended())
     else:
         out += list(cgen.e1())
         out += list(cgen.e3())
         roots = ["+", "-", "*", "/", "%", "&", "|", "^", "<<", ">>", "<", "=="]
         out += list(cgen.e4([roots[seed % 12], roots[(seed + 5) % 12]]))
+        out += list(cgen.extended(maxlen={"struct": 3, "array": 4, "array-unsized": 3, "array-2d": 3, "array-of-struct": 3}))
     return out
 
 
@@ -65,13 +67,28 @@ def ppci_run(case, suffix):
     gl = [g.replace("@", suffix) for g in case.get("globals", [])]
     for vi, vec in enumerate(case["vectors"]):
         try:
-            it = Interp(m, ptr_size=8, max_steps=20000)
+            it = Interp(m, ptr_size=8, max_steps=20000 if not case.get("strict") else 60000)
             r = it.call(fname, vec)
             mem = {n: bytes(reg.data[:reg.size]).hex() for n, reg in it.globals if n in gl}
             trace = [t[1][0] for t in it.trace]
             res[vi] = ("ok", r, mem, trace)
         except Undefined as e:
             res[vi] = ("undef", str(e))
+            if "read of uninitialised byte" in str(e) and case.get("strict"):
+                # read-modify-write of a bit-field unit in fresh storage reads bytes whose value cannot matter: run again with the
+                # uninitialised bytes reading as 0x00 and as 0xFF; only if both runs agree in every observation is that the result
+                obs = []
+                for fill in (0x00, 0xFF):
+                    try:
+                        it = Interp(m, ptr_size=8, max_steps=60000)
+                        it.uninit_fill = fill
+                        r = it.call(fname, vec)
+                        obs.append((r, {n: bytes(reg.data[:reg.size]).hex() for n, reg in it.globals if n in gl}, [t[1][0] for t in it.trace]))
+                    except (Undefined, Horizon, Unsupported, RecursionError):
+                        obs = []
+                        break
+                if len(obs) == 2 and repr(obs[0]) == repr(obs[1]):
+                    res[vi] = ("ok",) + obs[0]
         except Horizon as e:
             res[vi] = ("horizon", str(e))
         except Unsupported as e:
@@ -96,6 +113,9 @@ def compare(p, case, k, gres, pres):
     feat = case["fam"] + "/" + case["feat"]
     wit = {"src": case["src"], "fname": case["fname"], "ret": case["ret"], "params": case["params"], "globals": case.get("globals", []), "restore": case.get("restore", []),
            "fam": case["fam"], "feat": case["feat"]}
+    for opt in ("strict", "locus"):
+        if case.get(opt):
+            wit[opt] = case[opt]
     if gres is None:
         p.count("gcc_rejects")
         return
@@ -114,6 +134,10 @@ def compare(p, case, k, gres, pres):
         r = pres.get(vi)
         vec = case["vectors"][vi]
         w = dict(wit, vector=vec)
+        if r is not None and r[0] == "unsupported" and "initializer larger than variable" in r[1]:
+            p.violation(case["fam"] + "/" + generalise(case) + "/initial-image-larger-than-object",
+                        "%s: the initial value ppci emits for a variable has more bytes than the variable (%s); gcc returns %r" % (feat, r[1], g[1]), w)
+            continue
         if r is None or r[0] in ("horizon", "unsupported"):
             p.count("unclassified_" + (r[0] if r else "missing"))
             continue
@@ -134,6 +158,8 @@ def compare(p, case, k, gres, pres):
 def generalise(case):
     """Locus feature: operator plus signedness/width class instead of the exact type pair."""
     from vf.oracles.gccrun import BITS, is_unsigned
+    if case.get("locus"):
+        return case["locus"]
     parts = case["feat"].split("/")
     if case["fam"] in ("E1", "E3", "E4") and len(parts) >= 3:
         def cls(t):
@@ -150,7 +176,7 @@ def worker(p, shard):
     import os
     cases = [c for _, c in shard]
     with scratch("C01") as d:
-        gres = gccrun.run_cases(cases, d, batch=120, tag="w%d_" % os.getpid())
+        gres = gccrun.run_cases_policy(cases, d, batch=120, tag="w%d_" % os.getpid())
     for k, case in enumerate(cases):
         pres = ppci_run(case, "_%d" % k)
         compare(p, case, k, gres[k], pres)
@@ -181,7 +207,7 @@ def replay(w):
     case["vectors"] = [w["vector"]]
     p = Partial()
     with scratch("C01r") as d:
-        gres = gccrun.run_cases([case], d)
+        gres = gccrun.run_cases_policy([case], d)
     compare(p, case, 0, gres[0], ppci_run(case, "_0"))
     if p.violations:
         k = sorted(p.violations)[0]
